@@ -27,7 +27,7 @@ META = {
                      "the model callback does not mutate its input"],
     "assumptions": ["n_samples >= 1", "feature_subset is an iterable of keys present in the background"],
 }
-MIN_INSTANCES = {"MERGE": 3, "KEYS": 3, "COUNT": 3, "NOMUT": 3, "VALUE": 3}
+MIN_INSTANCES = {"MERGE": 3, "KEYS": 3, "COUNT": 3, "NOMUT": 3, "VALUE": 3, "COPY": 3}
 
 
 def check(run):
@@ -38,6 +38,9 @@ def check(run):
     for cls in classes:
         _imputer(run, prog, cls)
         ctor_wiring(run, prog, cls, "CTOR")         # strategy / storage / defaults as configured
+    from .copylib import copy_protocol
+    for cls in classes:
+        copy_protocol(run, prog, cls)               # a copied explainer's imputer still reads the copied storage
 
 
 class FilterRun:
@@ -275,6 +278,29 @@ def _values(run, prog, cls, s, fq, db, cond, subset, x, n, mctx, mev):
                          "the sampling strategy is compared by identity (`is`): an equal string that is not the "
                          "interned literal selects the wrong sampler")
                 return
+        if joint is not None:
+            # what the compared field holds: the constructor argument itself, so that comparing it with the string works
+            fld = next(x[1] for x in (strategy_lits[0][0][2], strategy_lits[0][0][3]) if x[0] == "field0")
+            held = init.fields.get(fld)
+            leaves = [held] if held is not None else []
+            while any(l[0] == "gate" for l in leaves):
+                leaves = [x for l in leaves for x in ((l[2], l[3]) if l[0] == "gate" else (l,))]
+            for l in leaves:
+                if l[0] in ("param", "const") or (l[0] == "res" and l[2] in (".lower", ".strip", ".casefold")) or \
+                        (l[0] == "fn" and l[1] == "str"):
+                    continue
+                K = prog.find_class(l[2].rsplit(".", 1)[1]) if l[0] == "new" and isinstance(l[2], str) and "." in l[2] else None
+                if K is not None:
+                    bases = [str(b) for b in prog.ext_bases(K)]
+                    if any(b.endswith("Enum") or b.endswith("Flag") for b in bases) and \
+                            not any(b in ("str", "builtins.str", "enum.StrEnum", "StrEnum") for b in bases):
+                        run.fail("VALUE", f"{name}.strategy", f"{init.path}:{init.fn.lineno}", f"{name}.__init__",
+                                 f"self.{fld} = {ir.show_nl(l)[:80]}",
+                                 f"self.{fld} holds a member of the enumeration {K.name}, which never equals the string 'joint' "
+                                 f"it is compared with: the joint strategy is never selected")
+                        return
+                raise AnalysisError(f"{fq}: the strategy is compared with 'joint' but self.{fld} holds "
+                                    f"{ir.show_nl(l)[:100]}; whether that equals the string is not decided")
         if joint is None:
             run.fail("VALUE", f"{name}.strategy", f"{s.path}:{mev.line}", fq,
                      f"strategy selection {' & '.join(ir.show_nl(c) for c in cond) or 'none'}",
